@@ -48,6 +48,8 @@ class LoginManager:
 
     def init_app(self, app):
         app.login_manager = self
+        # real Flask-Login makes `current_user` available to every template
+        app.context_processor(lambda: {"current_user": current_user})
 
     def user_loader(self, callback):
         self._user_callback = callback
